@@ -130,26 +130,26 @@ func Race(file string, timeout time.Duration, solvers []Solver, all bool) (Query
 }
 
 type OblResult struct {
-	Name    string        `json:"name"`
-	Func    string        `json:"func"`
-	Kind    string        `json:"kind"`
-	Props   []string      `json:"props"`
-	Status  string        `json:"status"` // proved | failed | undecided
-	Backend string        `json:"backend"`
-	Secs    float64       `json:"secs"`
-	Queries int           `json:"queries"`
-	Pos     string        `json:"pos,omitempty"`
-	Src     string        `json:"src,omitempty"`
-	Detail  string        `json:"detail,omitempty"`
-	Model   string        `json:"model,omitempty"`
-	File    string        `json:"file,omitempty"`
-	Expect  string        `json:"expect,omitempty"`
-	Results []QueryResult `json:"-"`
-	ReplayTest     string `json:"replay_test,omitempty"`      // generated Go test (full: panic + clause)
-	ReplayTestLite string `json:"replay_test_lite,omitempty"` // generated Go test (panic only)
-	ReplayPkg      string `json:"replay_pkg,omitempty"`       // package directory relative to the repository root
-	ReplayNote     string `json:"replay_note,omitempty"`
-	FailedObl      *Obligation `json:"-"`
+	Name           string        `json:"name"`
+	Func           string        `json:"func"`
+	Kind           string        `json:"kind"`
+	Props          []string      `json:"props"`
+	Status         string        `json:"status"` // proved | failed | undecided
+	Backend        string        `json:"backend"`
+	Secs           float64       `json:"secs"`
+	Queries        int           `json:"queries"`
+	Pos            string        `json:"pos,omitempty"`
+	Src            string        `json:"src,omitempty"`
+	Detail         string        `json:"detail,omitempty"`
+	Model          string        `json:"model,omitempty"`
+	File           string        `json:"file,omitempty"`
+	Expect         string        `json:"expect,omitempty"`
+	Results        []QueryResult `json:"-"`
+	ReplayTest     string        `json:"replay_test,omitempty"`      // generated Go test (full: panic + clause)
+	ReplayTestLite string        `json:"replay_test_lite,omitempty"` // generated Go test (panic only)
+	ReplayPkg      string        `json:"replay_pkg,omitempty"`       // package directory relative to the repository root
+	ReplayNote     string        `json:"replay_note,omitempty"`
+	FailedObl      *Obligation   `json:"-"`
 }
 
 type queryJob struct {
@@ -159,6 +159,7 @@ type queryJob struct {
 	hash   string
 	lite   string
 	ext    string
+	slice  string
 }
 
 var nameSan = regexp.MustCompile(`[^A-Za-z0-9_.#:@-]+`)
@@ -242,6 +243,7 @@ func (e *Engine) Discharge(obls []*Obligation, outDir string, timeout time.Durat
 				return sc
 			}
 			sc := build(o.Hyps, o.Goal)
+			sliceText := ""
 			// a smaller query without the allocation facts is tried first: unsat from fewer hypotheses is still unsat
 			var lite []*smt.Term
 			if o.Expect != "sat" && !mentionsAlloc(o.Goal) {
@@ -254,6 +256,13 @@ func (e *Engine) Discharge(obls []*Obligation, outDir string, timeout time.Durat
 			liteText := ""
 			if len(lite) > 0 && len(lite) < len(o.Hyps) {
 				liteText = build(lite, o.Goal).Render()
+			}
+			// an even smaller query: only the hypotheses in the goal's cone of influence (sharing, transitively, a
+			// heap, function or non-reference variable with it)
+			if o.Expect != "sat" {
+				if sl := sliceHyps(o.Hyps, o.Goal); len(sl) > 0 && len(sl)+2 < len(o.Hyps) {
+					sliceText = build(sl, o.Goal).Render()
+				}
 			}
 			// sequence equalities in the goal restated element-wise (extensionality): tried when the direct query
 			// is not decided
@@ -281,6 +290,9 @@ func (e *Engine) Discharge(obls []*Obligation, outDir string, timeout time.Durat
 			if extText != "" {
 				j.ext = "; obligation " + name + " (sequence equalities element-wise)\n" + extText
 			}
+			if sliceText != "" {
+				j.slice = "; obligation " + name + " (hypotheses in the goal's cone of influence only)\n" + sliceText
+			}
 			cache[h] = j
 			jobOf[o] = j
 			jobsList = append(jobsList, j)
@@ -301,6 +313,23 @@ func (e *Engine) Discharge(obls []*Obligation, outDir string, timeout time.Durat
 				results[j] = QueryResult{Status: "error", Raw: err.Error()}
 				mu.Unlock()
 				return
+			}
+			if j.slice != "" {
+				sf := strings.TrimSuffix(j.file, ".smt2") + ".slice.smt2"
+				if err := os.WriteFile(sf, []byte(j.slice), 0o644); err == nil {
+					st := timeout / 3
+					if st < 4*time.Second {
+						st = 4 * time.Second
+					}
+					if sr, _ := Race(sf, st, DefaultSolvers, false); sr.Status == "unsat" {
+						sr.File = sf
+						sr.Backend += "(slice)"
+						mu.Lock()
+						results[j] = sr
+						mu.Unlock()
+						return
+					}
+				}
 			}
 			if j.lite != "" {
 				lf := strings.TrimSuffix(j.file, ".smt2") + ".lite.smt2"
@@ -780,6 +809,77 @@ func skolemize(t *smt.Term) *smt.Term {
 		return smt.And(as...)
 	}
 	return t
+}
+
+// sliceHyps keeps the hypotheses in the cone of influence of the goal: a hypothesis is kept when it shares a
+// symbol (heap array, uninterpreted function, or a variable that is not a reference / interface value) with the
+// goal or with a hypothesis already kept. Unsat from a subset of the hypotheses is unsat.
+func sliceHyps(hyps []*smt.Term, goal *smt.Term) []*smt.Term {
+	syms := func(t *smt.Term) map[string]bool {
+		out := map[string]bool{}
+		seen := map[int]bool{}
+		bound := map[*smt.Term]bool{}
+		var walk func(u *smt.Term)
+		walk = func(u *smt.Term) {
+			if seen[u.ID()] {
+				return
+			}
+			seen[u.ID()] = true
+			for _, q := range u.Quant {
+				bound[q] = true
+			}
+			switch u.Op {
+			case "app":
+				if u.Name != "typeof" && u.Name != "root$ref" && u.Name != "subtag$ref" && !strings.HasPrefix(u.Name, "sub$") && !strings.HasPrefix(u.Name, "parent$") && !strings.HasPrefix(u.Name, "unbox$") && !strings.HasPrefix(u.Name, "box$") {
+					out["f:"+u.Name] = true
+				}
+			case "var":
+				if !bound[u] && u.Sort != smt.Ref && u.Sort != smt.Iface && u.Sort != smt.Fn && !strings.HasPrefix(u.Name, "$alloc") {
+					out["v:"+u.Name] = true
+				}
+			}
+			for _, a := range u.Args {
+				walk(a)
+			}
+		}
+		walk(t)
+		return out
+	}
+	cone := syms(goal)
+	hs := make([]map[string]bool, len(hyps))
+	for i, h := range hyps {
+		hs[i] = syms(h)
+	}
+	kept := make([]bool, len(hyps))
+	for changed := true; changed; {
+		changed = false
+		for i := range hyps {
+			if kept[i] {
+				continue
+			}
+			hit := len(hs[i]) == 0 // pure facts about references (nil checks, type tags): cheap, keep
+			for k := range hs[i] {
+				if cone[k] {
+					hit = true
+					break
+				}
+			}
+			if hit {
+				kept[i] = true
+				changed = true
+				for k := range hs[i] {
+					cone[k] = true
+				}
+			}
+		}
+	}
+	var out []*smt.Term
+	for i, h := range hyps {
+		if kept[i] {
+			out = append(out, h)
+		}
+	}
+	return out
 }
 
 // extGoal restates sequence equalities in positive position of a goal by extensionality:
